@@ -48,6 +48,7 @@ def runs(tier, seed):
             ("mut", ["validate", "-stream", "mut", "-seed", str(seed + 50), "-n", "500"] + P),
             ("adv", ["validate", "-stream", "adv", "-seed", str(seed + 50), "-n", "300"] + P),
             ("hist", ["validate", "-stream", "hist", "-seed", str(seed + 50), "-n", "80"] + P),
+            ("hist2", ["validate", "-stream", "hist", "-seed", str(seed + 150), "-n", "80"] + P),
             ("race", ["race", "-seed", str(seed + 50), "-n", "15"] + P)]
 
 
